@@ -32,17 +32,27 @@ Theorem C02_closure_fuel : forall rk frs names,
 Proof. exact frag_names_fuel_count. Qed.
 Print Assumptions C02_closure_fuel.
 
-(* proved under the boolean guard [exact_guard]: every spread of the operation and of the unpacked
-   fragments was recorded by _resolve_selection_set, and what was recorded is reachable.  The
-   complement of the guard is the finding class C02-dropped-spread. *)
-Theorem C02_fragments_exact_partial : forall fuel C Sc frs ins o doc ins' mix unp,
+(* proved under the boolean guard [covered]: every spread of the operation and of the unpacked fragments
+   is defined in the sent document (a local check of the operation and the unpacked definitions
+   against the list of sent fragments).  Its complement is the finding class C02-dropped-spread.  (That what was recorded is reachable is proved of the traversal:
+   recorded_is_reachable; the closure hypothesis is discharged by C02_closure_fuel.) *)
+Theorem C02_fragments_exact_partial : forall Sc fuel C frs ins o doc ins' mix unp l,
   op_document fuel C Sc frs ins o = Ok (doc, ins') ->
   op_sets fuel C Sc frs ins o = Ok (mix, unp) ->
-  exact_guard fuel frs o mix unp = true ->
+  frag_names fuel frs (sel_spreads (o_sel o)) = Some l ->
+  covered frs o (doc_fragment_names doc) unp = true ->
   (forall n, In n (doc_fragment_names doc) <-> reach frs (sel_spreads (o_sel o)) n)
   /\ NoDup (doc_fragment_names doc).
-Proof. exact fragments_exact. Qed.
+Proof. exact fragments_exact_covered. Qed.
 Print Assumptions C02_fragments_exact_partial.
+
+(* the generator never records a fragment the operation does not reach (unguarded) *)
+Theorem C02_recorded_is_reachable : forall Sc frs fuel C ins o mix unp l,
+  op_sets fuel C Sc frs ins o = Ok (mix, unp) ->
+  frag_names fuel frs (sel_spreads (o_sel o)) = Some l ->
+  recorded_reachable fuel frs o mix unp = true.
+Proof. exact recorded_is_reachable. Qed.
+Print Assumptions C02_recorded_is_reachable.
 
 (* query Q { animal { name ...NF } }  fragment NF on Node { id }  with Animal and Node unrelated
    interfaces sharing an implementation: the spread is dropped, NF is not sent *)
@@ -55,9 +65,10 @@ Qed.
 Print Assumptions C02_fragments_exact_refuted.
 
 Example C02_exact_guard_satisfiable :
-  exists mix unp, op_sets 50 W_cfg W_schema W_mixin_frs [] W_mixin_op = Ok (mix, unp)
-                  /\ exact_guard 50 W_mixin_frs W_mixin_op mix unp = true /\ mix = ["F"].
-Proof. eexists. eexists. split; [vm_compute; reflexivity|]. split; reflexivity. Qed.
+  exists mix unp l, op_sets 50 W_cfg W_schema W_mixin_frs [] W_mixin_op = Ok (mix, unp)
+                  /\ frag_names 50 W_mixin_frs (sel_spreads (o_sel W_mixin_op)) = Some l
+                  /\ covered W_mixin_frs W_mixin_op ["F"] unp = true /\ mix = ["F"] /\ l = ["F"].
+Proof. eexists. eexists. eexists. split; [vm_compute; reflexivity|]. repeat split; reflexivity. Qed.
 
 (* ================================================================= B. the two documented rewrites *)
 
